@@ -8,21 +8,6 @@ struct BuildEngineImpl_TaskInfo *g_new_taskinfo, *g_taskinfo;
 unsigned g_errors; _Bool g_values_equal;
 static inline double verif_clock_now(void) { double d; return d; }
 
-/* taskInfos.emplace(task, TaskInfo(task)): a fresh record for the task, inserted under taskInfosMutex */
-static inline struct BuildEngineImpl_TaskInfo *verif_taskinfos_emplace(struct BuildEngineImpl *self, struct Task *task) {
-  __CPROVER_assert(self->taskInfosMutex.held, "[P:C06] taskInfos is modified only with taskInfosMutex held");
-  struct BuildEngineImpl_TaskInfo *ti = malloc(sizeof(struct BuildEngineImpl_TaskInfo)); __CPROVER_assume(ti != 0);
-  ti->task = task; ti->forRuleInfo = 0; ti->waitCount = 0;
-  ti->deferredScanRequests.ptr = malloc(2 * sizeof(struct BuildEngineImpl_RuleScanRequest)); __CPROVER_assume(ti->deferredScanRequests.ptr != 0);
-  ti->deferredScanRequests.len = 0; ti->deferredScanRequests.cap = 2;
-  g_new_taskinfo = ti;
-  return ti;
-}
-/* getTaskInfo(task): lookup under taskInfosMutex; the record of the completing task is the ghost g_taskinfo */
-static inline struct BuildEngineImpl_TaskInfo *BuildEngineImpl_getTaskInfo(struct BuildEngineImpl *self, struct Task *task) {
-  __CPROVER_assert(!self->taskInfosMutex.held, "[P:C06] taskInfosMutex is free when getTaskInfo takes it");
-  return g_taskinfo;
-}
 /* value comparison (std::vector<uint8_t>::operator==): abstracted by a ghost answer */
 static inline _Bool vbytes_equal(const vbytes *a, vbytes b) { return g_values_equal; }
 
@@ -31,7 +16,6 @@ size_t g_k;   /* ghost index (universal quantifier) */
 
 /* the two rule records a scan step can touch: the scanned rule (a) and one other rule (b); the lookup is a function of the key */
 struct BuildEngineImpl_RuleInfo *g_ri_a, *g_ri_b; uint64_t g_key_a;
-static inline struct BuildEngineImpl_RuleInfo *BuildEngineImpl_getRuleInfoForKey(struct BuildEngineImpl *self, struct KeyID k) { return k._value == g_key_a ? g_ri_a : g_ri_b; }
 /* newRuleScanRecord(): a fresh, empty record (free-list / slab allocator not modelled) */
 static inline struct BuildEngineImpl_RuleScanRecord *BuildEngineImpl_newRuleScanRecord(struct BuildEngineImpl *self) {
   struct BuildEngineImpl_RuleScanRecord *r = malloc(sizeof(struct BuildEngineImpl_RuleScanRecord)); __CPROVER_assume(r != 0);
